@@ -458,6 +458,13 @@ def run_case(case):
             exc = _call(upd.update_seeds, d, r)
             if exc is not None or d[nm].seed() != 9001 + 13 * r:
                 out.fail("chained-fallback-not-used", {"stream": nm, "r": r, "exc": exc, "seed": d[nm].seed()})
+            # a chained updater that lists nothing itself hands the stream on to ITS fallback (the default one)
+            upd2 = StreamSeedUpdater({k: list(v) for k, v in table.items()})
+            upd2.set_fallback_stream_updater(_seeded({}))
+            d = _build([sp])
+            exc = _call(upd2.update_seeds, d, r)
+            if exc is not None or _obs(d[nm]) != alone:
+                out.fail("chained-fallback-not-used", {"stream": nm, "r": r, "exc": exc, "second tier": "empty table"})
             probe = _Fallback.make()
             upd.set_fallback_stream_updater(probe)
             d = _build([sp])
